@@ -10,7 +10,7 @@ module, ns, world = sys.argv[1], sys.argv[2], sys.argv[3]
 src = open(os.path.join(V, "lean", module.replace(".", "/") + ".lean")).read()
 P = json.load(open(os.path.join(V, "props.json")))
 SUFFIX = r"(_refines_of_le|_general_of_le|_anyorder_of_le|_disciplined|_sequence_refines|_runWithDefers|_blocks|_labels|_of_le_val|_one_go|_clamp_first|_tasks_cap|_spawnLoop|_body|_matches_init|_over_interpreted_\w+|_eq_runNode)$"
-names = [n for n in re.findall(r"^theorem (\w+)\b", src, re.M) if re.search(SUFFIX, n)]
+names = [n for n in re.findall(r"^theorem ([\w']+)", src, re.M) if re.search(SUFFIX, n)]
 ties = sorted({t["name"].split(".")[-1] for p in P for t in P[p]["theorems"] if t["name"].startswith("Flyt.Tie.")}, key=len, reverse=True)
 added = {}
 for p in P:
@@ -21,6 +21,10 @@ for n in names:
              "worker_labels": "WorkerPool_worker", "worker_iteration_labels": "WorkerPool_worker", "wrapper_labels": "WorkerPool_Submit",
              "deepRun_eq_runNode": "Run Flow_Exec", "FlowExec_over_interpreted_leaves": "Flow_Exec Run",
              "Run_over_interpreted_FlowExec": "Run Flow_Exec", "Run_over_interpreted_FlowExec_over_leaves": "Run Flow_Exec",
+             "fullRun_eq_runNode": "Run Flow_Exec runBatch runBatchSequential runExecWithRetries",
+             "fullRunCanon_eq_runNode": "Run Flow_Exec runBatch runBatchSequential runExecWithRetries",
+             "fullRun'_eq_runNode": "Run Flow_Exec runBatch runBatchSequential runExecWithRetries Flow_Prep Flow_Post BaseNode_GetMaxRetries BaseNode_GetWait BaseNode_ExecFallback",
+             "fullRunCanon'_eq_runNode": "Run Flow_Exec runBatch runBatchSequential runExecWithRetries Flow_Prep Flow_Post BaseNode_GetMaxRetries BaseNode_GetWait BaseNode_ExecFallback",
              "runBatchSequential_over_interpreted_items": "runBatchSequential runExecWithRetries",
              "runBatch_over_interpreted_sequential": "runBatch runBatchSequential runExecWithRetries",
              "runBatchConcurrent_serial_over_interpreted_items": "runBatchConcurrent runExecWithRetries"}
